@@ -74,6 +74,10 @@ var Tokens = []string{
 	": ", "\n: def", "term\n: def", "'", "\"", "--", "---", "...", "<<", ">>", "'s", "\"q\"", "'90", "'90s", "'tis", "''", "\"\"", "1/2", "9", "0", "'a'", "a'b", "(\"", "\")",
 	"{#id}", "{.c}", "{#i .c k=\"v\"}", "{k=v}", " {#x}", "{", "}", "{#a<b}",
 	"{id=1}", "{id=true}", "{id=-1.5e3}", "{id=[1,\"a\"]}", "{id={a=1}}", "{id=\"x\"}", "{class=1}", "{.a class=\"b\"}", "{id=null}", "{title=\"a\\\"b\"}", "{data-x=1}", "{onclick=\"x\"}", "# h {id=1}\n", "h {id=1}\n===\n",
+	// a "paragraph" that a paragraph transformer takes away (only definitions; a table head) directly followed by a line that
+	// asks for the paragraph before it (Setext underline, definition description, delimiter row), also as a later item
+	"[ref]: /url\n: def\n", "term\n: def\n\n[ref]: /url\n: def2\n", "\n[ref]: /url\n===\n", "\n[ref]: /u 't'\n---\n", "\n[r1]: /u\n[r2]: /v\n: d\n", "| a |\n|---|\n===\n", "| a |\n|---|\n: d\n",
+	"t1\n: d1\n\n[ref]: /url\n\n: d2\n", "\n[ref]: /url\n| a |\n|---|\n", "- [ref]: /url\n  ===\n", "> [ref]: /url\n> : d\n", "[^1]: [ref]: /u\n    : d\n",
 	// schemes
 	"javascript:", "JAVASCRIPT:", "vbscript:", "file:", "data:", "data:image/png;", "data:text/html,",
 	// hostile bytes
